@@ -65,6 +65,7 @@ func genClock(t *rapid.T) ClockCase {
 }
 
 func checkClock(t *testing.T, c ClockCase) (v harness.Verdict) {
+	memoTrim()
 	v.NonTrivial = true
 	type live struct {
 		it   ClockItem
